@@ -656,6 +656,23 @@ class SimulatedBroker(Broker):
         dt : `pd.Timestamp`
             The current timestamp to update the Broker to.
         """
+        # Refuse the update before anything is changed if a portfolio
+        # could not accept fills of its open orders at this (earlier) time
+        if self.exchange.is_open_at_datetime(dt):
+            for portfolio in self.portfolios:
+                if (
+                    not self.open_orders[portfolio].empty() and
+                    dt < self.portfolios[portfolio].current_dt
+                ):
+                    raise ValueError(
+                        "Update datetime (%s) is earlier than the current "
+                        "datetime (%s) of portfolio '%s', which has open "
+                        "orders. Cannot execute orders." % (
+                            dt, self.portfolios[portfolio].current_dt,
+                            portfolio
+                        )
+                    )
+
         self.current_dt = dt
 
         # Update portfolio asset values
